@@ -1,3 +1,30 @@
-(* C07 - placeholder (DESIGN.md 7 C07). *)
-From DL Require Import Base Context.
-Example C07_placeholder : True. Proof. exact I. Qed.
+(* C07 - arguments are validated before the body runs; the result before it is returned.
+   [run_call] returns (did the body run, what the caller observes).  Its structure is: argument phase
+   (provider, queue every annotated argument, assert), body, return phase (queue the returned value into the
+   same context, assert).  For every wrapper, provider state, argument list and body behaviour:
+   - if the argument phase does not accept, the body did not run and the caller gets that error;
+   - if it accepts and the return phase does not, the body ran (once: [run_call] consults the body oracle at one
+     point) and the caller gets the error instead of the value;
+   - if both accept the caller gets the value.
+   The side-effect log of real bodies is observed by harness/props/c07.py. *)
+From DL Require Import Base Lexer Parser Eval Shape Dtypes Check Context Hints Call Structural.
+
+Theorem C07_args_first : forall w ps args body e,
+  arg_phase w ps args = DRej e -> run_call w ps args body = (false, CRejected e).
+Proof. intros w ps args body e H. rewrite run_call_phases, H. reflexivity. Qed.
+Theorem C07_args_first_crash : forall w ps args body x,
+  arg_phase w ps args = DCrash x -> run_call w ps args body = (false, CCrashed x).
+Proof. intros w ps args body x H. rewrite run_call_phases, H. reflexivity. Qed.
+Theorem C07_return_checked : forall w ps args v c e,
+  arg_phase w ps args = DOk c -> ret_phase w c v = DRej e -> run_call w ps args (BReturn v) = (true, CRejected e).
+Proof. intros w ps args v c e H1 H2. rewrite run_call_phases, H1, H2. reflexivity. Qed.
+Theorem C07_value_only_after_both : forall w ps args v called,
+  run_call w ps args (BReturn v) = (called, CReturned v) ->
+  called = true /\ exists c, arg_phase w ps args = DOk c /\ ret_phase w c v = DOk tt.
+Proof.
+  intros w ps args v called. rewrite run_call_phases.
+  destruct (arg_phase w ps args) as [c|e|x] eqn:Ea; intros H; try (inversion H; fail).
+  destruct (ret_phase w c v) as [[]|e|x] eqn:Er; inversion H; subst. split; [reflexivity|]. exists c. split; [reflexivity|exact Er].
+Qed.
+Redirect "C07.assumptions.1" Print Assumptions C07_args_first.
+Redirect "C07.assumptions.2" Print Assumptions C07_value_only_after_both.
